@@ -225,10 +225,13 @@ impl OutputFormat for IcyDraw {
                             false
                         };
 
-                        result.extend(u16::to_le_bytes(attr));
                         if !ch.is_visible() {
+                            // the reader only knows the bare INVISIBLE marker: extra flags on an invisible cell would
+                            // be read as a visible cell (or, for SHORT_DATA, as the end of the row)
+                            result.extend(u16::to_le_bytes(attribute::INVISIBLE));
                             continue;
                         }
+                        result.extend(u16::to_le_bytes(attr));
 
                         if is_short {
                             result.push(ch.ch as u8);
@@ -278,10 +281,11 @@ impl OutputFormat for IcyDraw {
                                 false
                             };
 
-                            result.extend(u16::to_le_bytes(attr));
                             if !ch.is_visible() {
+                                result.extend(u16::to_le_bytes(attribute::INVISIBLE));
                                 continue;
                             }
+                            result.extend(u16::to_le_bytes(attr));
                             if is_short {
                                 result.push(ch.ch as u8);
                                 result.push(ch.attribute.foreground_color as u8);
